@@ -232,6 +232,7 @@ func init() {
 			wk := wkey{s.DB, k}
 			if _, ok := s.Watch[wk]; !ok {
 				s.Watch[wk] = m.ver[wk]
+				s.WatchMiss[wk] = m.dbs[wk.db][wk.key] == nil
 			}
 		}
 		return eOK()
@@ -239,6 +240,7 @@ func init() {
 	reg("unwatch", 1, false, func(m *Model, s *Sess, a []string, inExec bool) Expect {
 		if !inExec {
 			s.Watch = map[wkey]uint64{}
+			s.WatchMiss = map[wkey]bool{}
 		}
 		return eOK()
 	})
